@@ -39,7 +39,7 @@ ASSUMPTIONS = [
     "umask 022 during every invocation",
 ]
 BOUNDS = {
-    "quick": "fast: 16 helpers x EAPI {0,2,3,4,6,7,8} x up to 3 destinations x up to 3 option strings x 4-12 argument lists (2362 invocations); sym: all 25 x 23 (source, link) pairs incl. un-normalised spellings; e2e: 86 real-daemon src_install sessions (27 per EAPI 0/4/8, 5 for EAPI 7)",
+    "quick": "fast: 16 helpers x EAPI {0,2,3,4,6,7,8} x up to 3 destinations x up to 3 option strings x 4-12 argument lists (2362 invocations); sym: all 25 x 23 (source, link) pairs incl. un-normalised spellings; e2e: 67 real-daemon src_install sessions (27 each for EAPI 0 and 8, 8 for EAPI 4, 5 for EAPI 7)",
     "thorough": "fast: EAPI 0-8, destinations {default,/,/usr,/opt/x,/opt/x/,dir with space} x all option strings x all argument lists (5419 invocations); sym: 131 x 76 pairs; e2e: 504 real-daemon sessions (56 per EAPI 0-8)",
 }
 
@@ -794,10 +794,12 @@ def replay(case):
 # One task = one EAPI chunk: a real EbuildProcessor runs the real "setup" phase once for an ebuild whose src_install
 # sources ${T}/verif-script.sh, then one real "install" phase per session with a freshly written script
 # (destination/option commands, then ONE helper call resolved through the EAPI's real helper PATH).
-E2E_CHUNK = 14
-# quick tier: indices into the base session list of e2e_invs (one or two sessions per helper; every reject rule);
-# EAPI 7 only adds the sessions whose verdict changes there (dolib/dohtml banned, dohard stays banned)
+E2E_CHUNK = 9
+# quick tier: indices into the base session list of e2e_invs (one or two sessions per helper; every reject rule) for
+# EAPI 0 and 8; EAPI 4 and 7 only add the sessions whose verdict changes there (helpers die instead of returning
+# non-zero, dodoc -r, dohard banned, -i18n precedence / dolib and dohtml banned)
 QUICK_E2E = {0, 1, 3, 5, 6, 7, 8, 10, 11, 13, 15, 17, 18, 19, 20, 22, 24, 25, 27, 29, 31, 32, 33, 35, 36, 37, 38}
+QUICK_E2E_EAPI4 = {11, 13, 18, 19, 24, 25, 35, 38}
 QUICK_E2E_EAPI7 = {5, 7, 20, 29, 38}
 
 
@@ -849,7 +851,7 @@ def e2e_invs(eapi, tier):
     add("dosym", {}, ["/usr/bin/real", "/usr/share/a/link"], flags=["-r"])
     add("dohard", {}, ["/real", "/other/hard"], pre_files={"/real": "realfile\n"})
     if tier == "quick":
-        keep = QUICK_E2E if eapi != 7 else QUICK_E2E_EAPI7
+        keep = {0: QUICK_E2E, 8: QUICK_E2E, 4: QUICK_E2E_EAPI4, 7: QUICK_E2E_EAPI7}[eapi]
         return [inv for i, inv in enumerate(out) if i in keep]
     if tier == "thorough":
         add("dobin", {"into": "/usr"}, ["sp ace.txt"])
@@ -896,6 +898,10 @@ def e2e_script(inv):
         lines.append(f'mkdir -p "${{ED:-${{D}}}}"{shlex.quote(os.path.dirname(p))} || die')
         lines.append(f'printf %s {shlex.quote(text)} > "${{ED:-${{D}}}}"{shlex.quote(p)} || die')
     lines.append(" ".join([inv["helper"]] + [shlex.quote(a) for a in wire_args(inv)]))
+    # EAPI 0-3: a failing helper returns non-zero without aborting the phase; EAPI 4+: it dies, nothing below runs
+    lines.append('echo $? > "${T}/verif-status"')
+    # the image as the helper left it (the phase compresses docs/man pages and fixes library modes afterwards)
+    lines.append('ved=${ED:-${D}}; cp -a "${ved%/}" "${T}/verif-image" || die')
     return "".join(l + "\n" for l in lines)
 
 
@@ -953,6 +959,8 @@ class _Daemon:
         self.handlers["request_bashrcs"] = lambda e: e.write("end_request")
         self.handlers["filter_env"] = ebd_ipc.FilterEnv(op)
         self.script = os.path.join(env["T"], "verif-script.sh")
+        self.status = os.path.join(env["T"], "verif-status")
+        self.copy = os.path.join(env["T"], "verif-image")
         with open(self.script, "w") as f:
             f.write(":\n")
         self._phase("setup")
@@ -969,6 +977,9 @@ class _Daemon:
     def run(self, inv):
         shutil.copy(self.saved_env, os.path.join(self.env["T"], "environment"))
         shutil.rmtree(self.env["D"], ignore_errors=True)
+        shutil.rmtree(self.copy, ignore_errors=True)
+        if os.path.exists(self.status):
+            os.unlink(self.status)
         with open(self.script, "w") as f:
             f.write(e2e_script(inv))
         old_umask = os.umask(0o022)
@@ -980,7 +991,15 @@ class _Daemon:
                 out = ("reject", f"{type(e).__name__}: {e}"[:300])
         finally:
             os.umask(old_umask)
-        files, dirs = snapshot(self.ED) if os.path.isdir(self.ED) else ({}, {})
+        if out[0] == "ok":
+            try:
+                with open(self.status) as f:
+                    st = f.read().strip()
+            except FileNotFoundError:
+                st = "script did not reach the end"
+            if st != "0":
+                out = ("reject", f"helper exit status {st}")
+        files, dirs = snapshot(self.copy) if os.path.isdir(self.copy) else ({}, {})
         return out + (files, dirs)
 
     def close(self):
